@@ -159,7 +159,7 @@ def eval_case(c):
         tol = 1e3 * rtol + 1e-9 + 10 * d
         obs.update(fam=fam, r0f=c['r0f'], worst_residual=worst, tol=tol, at_r_over_R=float(r[worst_j] / R), k=complex(s['love'][0][0]))
         if worst > tol:
-            if (not kam) and tak_before > 1e-9 and tak_after < max(tak_before * 0.05, 1e-9):
+            if (not kam) and tak_before > 1e-12 and tak_after < tak_before * 0.05:
                 V('takeuchi-y6-cross-index', f'{fam} r0={c["r0f"]:.3g}R: solution at the surface leaves the span of the starting vectors evaluated there (residual {worst:.3e}); the Takeuchi vectors at r0 are not regular solutions (distance {tak_before:.1e} from the Kamata span, {tak_after:.1e} after re-assembling y6 of solutions 0/1 from their own y5)', residual=worst)
             elif (not kam) and max(abs(kp), abs(kn)) * r0 ** 2 > 3.0:
                 V('takeuchi-phi-psi-series-truncated', f'{fam} r0={c["r0f"]:.3g}R: |k^2 r0^2| = {max(abs(kp), abs(kn)) * r0 ** 2:.3g}: the Takeuchi phi/psi power series are truncated at z^10, so the starting vectors are not regular solutions there (residual at the surface {worst:.3e}, distance from the Kamata span at r0 {tak_before:.1e})', residual=worst)
@@ -235,7 +235,7 @@ def eval_case(c):
                     after = max(resid_in(A, scale_solid(T2[i], r0f * R, mu, g_)) for i in range(3))
                     kp, kn = k2_values(c, mu, K, fam.endswith('static'))
                     x2max = max(abs(kp), abs(kn)) * (r0f * R) ** 2
-                    if before > 1e-7 and after < before * 0.05:
+                    if before > 1e-12 and after < before * 0.05:
                         key = 'takeuchi-y6-cross-index'
                     elif x2max > 3.0:
                         key = 'takeuchi-phi-psi-series-truncated'
@@ -263,7 +263,7 @@ def eval_case(c):
             after = max(resid_in(A, scale_solid(v, c['r0f'] * R, mu, g_)) for v in takeuchi_y6_fix(T, c['r0f'] * R, l))
             kp, kn = k2_values(c, mu, K, static)
             x2max = max(abs(kp), abs(kn)) * (c['r0f'] * R) ** 2
-            key = 'takeuchi-y6-cross-index' if (before > 1e-7 and after < before * 0.05) else ('takeuchi-phi-psi-series-truncated' if x2max > 3.0 else 'takeuchi-vs-kamata-differ')
+            key = 'takeuchi-y6-cross-index' if (before > 1e-12 and after < before * 0.05) else ('takeuchi-phi-psi-series-truncated' if x2max > 3.0 else 'takeuchi-vs-kamata-differ')
             V(key, f'static={static} r0={c["r0f"]:.3g}R: Kamata {[complex(x) for x in a["love"][0]]} vs Takeuchi {[complex(x) for x in b["love"][0]]} differ by {err:.3e} > {budget:.1e} (Takeuchi vectors in Kamata span: residual {before:.1e}, {after:.1e} after the y6 re-assembly)')
         return {'status': 'violated' if viol else 'held', 'nontrivial': True, 'violations': viol, 'obs': obs, 'counters': cnt}
 
